@@ -526,6 +526,8 @@ def analyse(res):
                 f'{coq_list([coq_list([zlit(v) for v in r]) for r in nettr])})')
   return out
 
+MAX_REPORTS = 5
+
 COQ_DEFS = '''
 From Coq Require Import Strings.Ascii Strings.String.
 Definition case := (string * list (string * Z) * list line * list (list Z) * list Z * nat * list (list Z))%type.
@@ -623,6 +625,9 @@ def check_batch(ctx, batch):
   bad = ctx.coq_bad_indices('vcd', 'Base.Prelude Trace.Vcd', COQ_DEFS, 'case', cases, 'verdict c =? 0',
                             shard=max(1, (len(cases) + 7) // 8))
   for i in bad:
+    if sum(1 for v in ctx.violations if v[0].startswith('C16:vcd-replay:')) >= MAX_REPORTS:
+      ctx.note(f'{len(bad)} disagreeing designs in this batch; only the first {MAX_REPORTS} value disagreements are reported')
+      break
     b = batch[i]
     v = ctx.coq_eval('verdict', 'Base.Prelude Trace.Vcd', COQ_DEFS, [f'verdict {cases[i]}'])
     code = int(re.sub(r'[^0-9]', '', v[0]) or '-1')
@@ -642,7 +647,7 @@ def check_batch(ctx, batch):
       ctx.violation(f'C16:vcd-replay:{h}',
                     f'the .vcd read back by the Coq reader differs from the simulator (verdict bits {code}: 1=unparsable line, '
                     f'2=value, 4=clock): {first}', replay)
-    else:
+    elif sum(1 for v in ctx.violations if v[0].startswith('C16:model-tie:')) < MAX_REPORTS:
       # reader agrees with the samples, only the writer model differs from the file: the model tie is broken
       toks = an['tokens']
       ctx.violation(f'C16:model-tie:{h}',
@@ -687,6 +692,7 @@ def run(ctx):
         raise RuntimeError(f'generated design does not simulate (generator bug): {e!r}\n{tb[-800:]}\n{src[-1500:]}')
     an = analyse(res)
     for kind, what in an['problems']:
+      if sum(1 for v in ctx.violations if v[0].startswith(f'C16:{kind}:')) >= MAX_REPORTS: continue
       ctx.violation(f'C16:{kind}:{key}', f'{what}',
                     {'design_source': src, 'top': name, 'inputs': [list(x) for x in inputs], 'input_sequence': seq,
                      'sim_reset_first': reset}, found_input=(kind == 'header'))
